@@ -29,7 +29,8 @@ RULE = ("A case is a JSON description of a ListGrader tree (leaves: table-driven
         "exist the check is a validity predicate: the reported total equals the optimum (1e-9) and SOME optimal "
         "assignment of SOME maximal list reproduces (grade, ok, msg) at every box (recursively for nested graders). "
         "Non-trivial = unordered with a non-optimal identity assignment and a partial-credit entry in the result, or "
-        ">=2 answer lists with different optima, or a grouping with interleaved members; distinct by spec.")
+        ">=2 answer lists with different optima, or a grouping with interleaved members; distinct by spec."
+        " In a third of the flat cases the subgrader objects first serve a rival ListGrader with the opposite partial-credit / ordering settings.")
 ASSUMPTIONS = ["leaf results come from an independent instance of the same leaf grader class with the same config "
                "(TableGrader is deterministic; SingleListGrader leaves are trusted as black boxes here)",
                "credits are products/averages of the palette {0, 0.1, 1/3, 0.5, 0.7, 1} or of a 0.001-grid palette: totals of different assignments "
